@@ -921,7 +921,9 @@ class Scene(Geometry3D):
             if hasattr(current, "to_3D"):
                 # check to see if the scene is transforming the path out of plane
                 check = util.isclose(transform, util._IDENTITY, atol=1e-8)
-                check[:2, :3] = True
+                # only the in-plane linear part may differ: the third column
+                # becomes the translation of the clipped planar matrix
+                check[:2, :2] = True
                 if not check.all():
                     # transform moves in 3D so we put this on the Z=0 plane
                     current = current.to_3D()
